@@ -126,14 +126,21 @@ class PycodeSerializer:
             yield str(obj)
             return
 
+        if isinstance(obj, tuple):
+            opening, closing = "(", ")"
+        elif isinstance(obj, (set, frozenset)):
+            opening, closing = "{", "}"
+        else:
+            opening, closing = "[", "]"
+
         next_level = level + 1
-        yield "[\n"
+        yield f"{opening}\n"
         for val in obj:
             yield spaces * next_level
             yield from self.repr_object(val, next_level, types)
             yield ",\n"
 
-        yield f"{spaces * level}]"
+        yield f"{spaces * level}{closing}"
 
     def repr_mapping(self, obj: Mapping, level: int, types: set[type]) -> Iterator[str]:
         """Convert a map object to repr code.
